@@ -6,8 +6,22 @@
 #include "common.h"
 #include <geos_c.h>
 #include <geos/index/strtree/TemplateSTRtree.h>
+#include <geos/index/strtree/SimpleSTRtree.h>
+#include <geos/index/strtree/STRtree.h>
+#include <geos/index/strtree/SIRtree.h>
+#include <geos/index/intervalrtree/SortedPackedIntervalRTree.h>
+#include <geos/index/quadtree/Quadtree.h>
+#include <geos/index/kdtree/KdTree.h>
+#include <geos/index/kdtree/KdNodeVisitor.h>
+#include <geos/index/ItemVisitor.h>
+#include <geos/noding/snapround/HotPixelIndex.h>
+#include <geos/noding/snapround/HotPixel.h>
+#include <geos/geom/PrecisionModel.h>
+#include <geos/geom/Envelope.h>
 #include <cstdarg>
 #include <set>
+#include <array>
+#include <memory>
 #include <fstream>
 #include <iostream>
 
@@ -200,6 +214,72 @@ static std::string genHistory(Rng& r, Out& out) {
     return s;
 }
 
+// ---- the other indexes used inside the library: results reported to the driver, which checks them against the
+// brute-force filter ("never miss a matching item; the exact ones return no non-matching item")
+struct IdCollector : public geos::index::ItemVisitor { std::vector<long> ids; void visitItem(void* it) override { ids.push_back((long)(intptr_t) it); } };
+struct KdCollector : public geos::index::kdtree::KdNodeVisitor { std::vector<std::pair<long,long>> pts;
+    void visit(geos::index::kdtree::KdNode* n) override { pts.push_back({(long) n->getCoordinate().x, (long) n->getCoordinate().y}); } };
+
+static std::string joinL(std::vector<long> v) { std::sort(v.begin(), v.end()); std::string s; for (size_t i = 0; i < v.size(); i++) { if (i) s += ","; s += std::to_string(v[i]); } return s.empty() ? "-" : s; }
+
+static std::string genOther(Rng& r, Out& out) {
+    using geos::geom::Envelope;
+    static const char* kinds[] = {"simple", "legacy", "quad", "sir", "spi", "kd", "hot"};
+    int ki = (int) r.below(7); std::string kind = kinds[ki]; out.count("other_" + kind);
+    int cap = r.range(2, 12); int span = r.chance(50) ? 6 : 30;
+    int n; switch (r.below(5)) { case 0: n = 0; break; case 1: n = 1; break; case 2: n = cap * cap + r.range(-1, 1); break; default: n = r.range(2, 80); }
+    std::string c = "X " + kind + " " + std::to_string(cap);
+    std::vector<std::array<long, 4>> env(n);
+    auto mk = [&](std::array<long, 4>& e) { long x1 = r.range(-span, span), x2 = r.range(-span, span), y1 = r.range(-span, span), y2 = r.range(-span, span);
+        int k = (int) r.below(10); if (k < 3) { x2 = x1; y2 = y1; } else if (k < 4) x2 = x1; else if (k < 5) y2 = y1;
+        e = {std::min(x1, x2), std::max(x1, x2), std::min(y1, y2), std::max(y1, y2)}; };
+    for (int i = 0; i < n; i++) { if (i > 0 && r.chance(10)) env[i] = env[r.below(i)]; else mk(env[i]);
+        if (kind == "kd" || kind == "hot") { env[i][1] = env[i][0]; env[i][3] = env[i][2]; }
+        c += " I " + std::to_string(i + 1) + " " + std::to_string(env[i][0]) + " " + std::to_string(env[i][1]) + " " + std::to_string(env[i][2]) + " " + std::to_string(env[i][3]); }
+    // build the index
+    std::vector<std::unique_ptr<Envelope>> keep;
+    std::unique_ptr<geos::index::strtree::SimpleSTRtree> simple; std::unique_ptr<geos::index::strtree::STRtree> legacy;
+    std::unique_ptr<geos::index::quadtree::Quadtree> quad; std::unique_ptr<geos::index::strtree::SIRtree> sir;
+    std::unique_ptr<geos::index::intervalrtree::SortedPackedIntervalRTree> spi; std::unique_ptr<geos::index::kdtree::KdTree> kd;
+    geos::geom::PrecisionModel pm(1.0); std::unique_ptr<geos::noding::snapround::HotPixelIndex> hot;
+    if (kind == "simple") simple.reset(new geos::index::strtree::SimpleSTRtree((size_t) cap));
+    if (kind == "legacy") legacy.reset(new geos::index::strtree::STRtree((size_t) std::max(cap, 2)));
+    if (kind == "quad") quad.reset(new geos::index::quadtree::Quadtree());
+    if (kind == "sir") sir.reset(new geos::index::strtree::SIRtree((size_t) std::max(cap, 2)));
+    if (kind == "spi") spi.reset(new geos::index::intervalrtree::SortedPackedIntervalRTree());
+    if (kind == "kd") kd.reset(new geos::index::kdtree::KdTree());
+    if (kind == "hot") hot.reset(new geos::noding::snapround::HotPixelIndex(&pm));
+    for (int i = 0; i < n; i++) { auto& e = env[i]; void* item = (void*)(intptr_t)(i + 1);
+        keep.emplace_back(new Envelope((double) e[0], (double) e[1], (double) e[2], (double) e[3]));
+        if (simple) simple->insert(keep.back().get(), item); if (legacy) legacy->insert(keep.back().get(), item);
+        if (quad) quad->insert(keep.back().get(), item); if (sir) sir->insert((double) e[0], (double) e[1], item);
+        if (spi) spi->insert((double) e[0], (double) e[1], item);
+        if (kd) kd->insert(geos::geom::Coordinate((double) e[0], (double) e[2]), item);
+        if (hot) hot->add(geos::geom::Coordinate((double) e[0], (double) e[2])); }
+    int nq = r.range(1, 8); std::set<long> removed;
+    for (int q = 0; q < nq; q++) {
+        if ((simple || legacy) && n > 0 && r.chance(25)) {          // removal of a live or already removed pair
+            long id = r.range(1, n); auto& e = env[id - 1]; Envelope qe((double) e[0], (double) e[1], (double) e[2], (double) e[3]);
+            bool ok = simple ? simple->remove(&qe, (void*)(intptr_t) id) : legacy->remove(&qe, (void*)(intptr_t) id);
+            c += " R " + std::to_string(id) + " " + (ok ? "1" : "0"); continue; }
+        std::array<long, 4> e; if (n > 0 && r.chance(30)) { e = env[r.below(n)]; if (r.chance(50)) { e[0] = e[1]; e[2] = e[3]; } } else mk(e);
+        std::vector<long> res;
+        if (kind == "sir" || kind == "spi") { e[2] = e[3] = 0; }
+        Envelope qe((double) e[0], (double) e[1], (double) e[2], (double) e[3]);
+        if (simple) { IdCollector v; simple->query(&qe, v); res = v.ids; }
+        if (legacy) { std::vector<void*> v; legacy->query(&qe, v); for (auto p : v) res.push_back((long)(intptr_t) p); }
+        if (quad) { std::vector<void*> v; quad->query(&qe, v); for (auto p : v) res.push_back((long)(intptr_t) p); }
+        if (sir) { std::unique_ptr<std::vector<void*>> v(sir->query((double) e[0], (double) e[1])); for (auto p : *v) res.push_back((long)(intptr_t) p); }
+        if (spi) { if (n == 0) { c += " Q " + std::to_string(e[0]) + " " + std::to_string(e[1]) + " 0 0 -"; continue; } IdCollector v; spi->query((double) e[0], (double) e[1], &v); res = v.ids; }
+        std::string rs;
+        if (kd || hot) { KdCollector v; if (kd) kd->query(qe, v); else hot->query(geos::geom::CoordinateXY((double) e[0], (double) e[2]), geos::geom::CoordinateXY((double) e[1], (double) e[3]), v);
+            std::sort(v.pts.begin(), v.pts.end()); for (auto& p : v.pts) { if (!rs.empty()) rs += ","; rs += std::to_string(p.first) + ":" + std::to_string(p.second); } if (rs.empty()) rs = "-"; }
+        else rs = joinL(res);
+        c += " Q " + std::to_string(e[0]) + " " + std::to_string(e[1]) + " " + std::to_string(e[2]) + " " + std::to_string(e[3]) + " " + rs;
+    }
+    return c;
+}
+
 // ---- slice arithmetic
 struct Probe : public geos::index::strtree::TemplateSTRtreeImpl<void*, geos::index::strtree::EnvelopeTraits> {
     explicit Probe(size_t cap) : TemplateSTRtreeImpl(cap) {}
@@ -222,6 +302,8 @@ int main(int argc, char** argv) {
     uint64_t seed = std::stoull(argv[2]); long n = std::stol(argv[3]); Out out(argv[4]); Rng r(seed);
     if (stream == "strtree") {
         for (long i = 0; i < n; i++) { std::string c = genHistory(r, out); out.emit(c, runHistory(h, split(c))); }
+    } else if (stream == "otheridx") {
+        for (long i = 0; i < n; i++) out.emit(genOther(r, out), "ok");
     } else if (stream == "strslices") {
         for (long i = 0; i < n; i++) {
             size_t cap = (size_t) r.range(2, 32);
